@@ -704,6 +704,73 @@ theorem loopI_noStepAfter (ops : ValOps V) (r : IRunner V S X) (sched : ISched V
       rintro ⟨k, hk, hm⟩
       exact absurd hk (stepI_next_no_after ops r sched hs ls ls' hnext k hm)
 
+theorem coreOut_sr_dones (ops : ValOps V) (r : IRunner V S X) (sched : ISched V S X) (cm : Chans V)
+    (bres : List (Key × BodyRes V S X)) (st2 : S) (cm' : Chans V) (restore : List Key) (subs : List (Key × X))
+    (reruns : List Key) (dones : List (Done V)) (st : S)
+    (h : coreOut ops r sched cm bres st2 = .sr cm' restore subs reruns dones st) :
+    dones = doneOf (runPosts r (sched bres) st2).1 := by
+  unfold coreOut at h
+  simp only at h
+  split at h
+  · simp at h
+  · split at h
+    · split at h
+      · simp at h
+      · injection h with _ _ _ _ h5 _
+        exact h5.symm
+    · split at h
+      · simp at h
+      · split at h <;> simp at h
+
+theorem mem_afterHits (A : List Key) (dones : List (Done V)) (k : Key) :
+    k ∈ afterHits A dones ↔ k ∈ dones.map (·.1) ∧ k ∈ A := by
+  unfold afterHits
+  simp [List.mem_filter]
+
+/-- an interrupt lists in AfterNodes every interrupt-after node that completed in the superstep it ends -/
+theorem stepI_intr_after (ops : ValOps V) (r : IRunner V S X) (sched : ISched V S X) (hs : SchedKeeps sched)
+    (ls : LoopSt V S X) (cp : Checkpoint V S X) (info : Info S X) (h : (stepI ops r sched ls).2 = .intr cp info) :
+    ∀ k, Ev.finish k ∈ (stepI ops r sched ls).1 → k ∈ r.intAfter → k ∈ info.after := by
+  intro k hk hA
+  rw [stepI_evs] at hk
+  simp only [List.mem_cons] at hk
+  rcases hk with hk | hk
+  · cases hk
+  · obtain ⟨out, s, hm⟩ := finish_mem_runBodies r _ _ k hk
+    have hm' := hs _ _ hm
+    obtain ⟨out', hp⟩ := done_mem_runPosts r _ (runBodies r (runPres r ls.tasks ls.st).1 (runPres r ls.tasks ls.st).2).2.1 k out s hm'
+    have hd := done_mem_doneOf _ k out' hp
+    simp only [stepI] at h
+    have hcore : (stepCore ops r sched ls).2 =
+        coreOut ops r sched ls.cm (runBodies r (runPres r ls.tasks ls.st).1 (runPres r ls.tasks ls.st).2).1
+          (runBodies r (runPres r ls.tasks ls.st).1 (runPres r ls.tasks ls.st).2).2.1 := rfl
+    cases hc : (stepCore ops r sched ls).2 with
+    | done v => rw [hc] at h; simp [finishStep] at h
+    | fail e => rw [hc] at h; simp [finishStep] at h
+    | sr cm restore subs reruns dones st =>
+      rw [hc] at h
+      simp only [finishStep] at h
+      injection h with _ h2
+      subst h2
+      rw [hcore] at hc
+      have hdones := coreOut_sr_dones ops r sched _ _ _ cm restore subs reruns dones st hc
+      rw [← hdones] at hd
+      exact (mem_afterHits r.intAfter dones k).2 ⟨hd, hA⟩
+    | next cm ts dones st =>
+      rw [hc] at h
+      rw [hcore] at hc
+      have hdones := coreOut_next_dones ops r sched _ _ _ cm ts dones st hc
+      rw [← hdones] at hd
+      simp only [finishStep] at h
+      split at h
+      · simp at h
+      · split at h
+        · simp at h
+        · simp at h
+        · injection h with _ h2
+          subst h2
+          exact (mem_afterHits r.intAfter dones k).2 ⟨hd, hA⟩
+
 /-! ### the same facts for a whole call (`runI`) -/
 
 theorem runI_noStepAfter (ops : ValOps V) (cfg : Cfg) (r : IRunner V S X) (sched : ISched V S X) (isSub hasID : Bool)
